@@ -743,6 +743,40 @@ def world_cfgs():
     return out
 
 
+OBSERVE_ONLY = {"dump", "valid", "has", "get", "archof", "marked"}
+
+
+def shrink_world(ops, fails):
+    """Contract-preserving reduction of a world history: the shortest failing prefix (a prefix of a history inside the contract is
+    inside the contract), then removal of observation-only lines. Arbitrary line deletion could leave the contract (an op on an entity
+    whose creation was deleted), so it is not attempted here."""
+    lines = wc.op_lines(ops)
+    lo, hi = 0, len(lines) - 1
+    if not fails("\n".join(lines) + "\n"):
+        return ops
+    while lo < hi:
+        mid = (lo + hi) // 2
+        if fails("\n".join(lines[:mid + 1]) + "\n"):
+            hi = mid
+        else:
+            lo = mid + 1
+    lines = lines[:lo + 1]
+    i = 0
+    tries = 0
+    while i < len(lines) - 1 and tries < 80:
+        w = lines[i].split()
+        if w and w[0].startswith("t") and w[0][1:].isdigit():
+            w = w[1:]
+        if w and w[0] in OBSERVE_ONLY:
+            cand = lines[:i] + lines[i + 1:]
+            tries += 1
+            if fails("\n".join(cand) + "\n"):
+                lines = cand
+                continue
+        i += 1
+    return "\n".join(lines) + "\n"
+
+
 def run_world_part(ctx):
     exe = ctx.harness("world_driver", "asan")
     rng = ctx.rng
@@ -756,6 +790,9 @@ def run_world_part(ctx):
     per_cfg = {}
     for i in range(n if cfgs else 0):
         cid, mix, gen, (lo, hi) = cfgs[i % len(cfgs)]
+        # no malformed-handle stream here (C09's subject): a random or small raw handle can coincide with a live entity, the generator's
+        # reference state does not see that kill, and a later `assign` on the dead entity is outside the contract (unguarded in the code)
+        gen = {k: v for k, v in gen.items() if k != "malformed"}
         if "storagecap" not in gen and rng.random() < 0.5:
             gen = dict(gen, storagecap=rng.choice([1, 2, 3]))
         g = wc.Gen(rng, mix, **gen)
@@ -777,7 +814,7 @@ def run_world_part(ctx):
         def fails(t):
             out, nt, _ = wc.run_impl(exe, t)
             return nt is not None or any("LIFECYCLE-ERROR" in l for l in out)
-        small = wc.shrink(ops, fails, budget=60)
+        small = shrink_world(ops, fails)
         ctx.violation(small, "C10 fails on the implementation: world history (%s) aborts / raises a sanitizer report: %s" % (name, note[:500]))
         reported += 1
     ctx.cov(world_histories=len(files), world_history_aborts=len(bad), world_lifecycle_errors=len(life), world_histories_per_generator=per_cfg)
